@@ -57,7 +57,8 @@ warm_sqlite()
 NMAX = B(4, 5)      # appends in the interleaving obligations (memory)
 NSQ = B(3, 5)       # appends in the interleaving obligation (sqlite + differential)
 SMAX = B(3, 4)      # events in the subscription obligations
-SSQ = B(2, 4)       # events in the sqlite / default-polling subscription obligations
+SSQL = B(3, 4)      # events in the sqlite subscription obligation
+SLOWSQ = B(0, 2)    # consumer delay range in the sqlite subscription obligation
 GMAX = B(1, 2)      # writer gap / consumer delay range
 
 
@@ -205,14 +206,14 @@ def ob_mem_subscribe(n: int, nb: int, tpos: int, k: int, g1: int, g2: int, g3: i
 
 
 @obligation(quick=150, thorough=500,
-            partitions_quick=[f"sub_first == {b} and other == {o}" for b in (True, False) for o in (True, False)],
+            partitions_quick=[f"sub_first == {b} and other == {o} and g1 == {g}" for b in (True, False) for o in (True, False) for g in (0, 1)],
             partitions_thorough=[f"n == {n} and sub_first == {b} and slow == {s} and other == {o}" for n in (1, 2, 3, 4) for b in (True, False) for s in (0, 1, 2) for o in (True, False)],
             what="sqlite subscribe_events(after=k), notify wake-up (same store object writes) and poll-timeout wake-up (another store object on the same file writes): exactly seq k+1..t once each, then stops",
-            bounds=dict(_SUB_BOUNDS, **{"events": "1..SSQ", "wake-up path": "notify / poll timeout", "poll_interval": 1}))
+            bounds=dict(_SUB_BOUNDS, **{"events": "1..SSQL", "consumer delay": "0..SLOWSQ", "wake-up path": "notify / poll timeout", "poll_interval": 1}))
 def ob_sqlite_subscribe(n: int, nb: int, tpos: int, k: int, g1: int, g2: int, g3: int, slow: int, sub_first: bool, other: bool) -> bool:
     """
-    pre: 1 <= n <= SSQ and 0 <= nb <= n and 0 <= tpos < n and -1 <= k < tpos
-    pre: 0 <= g1 <= GMAX and 0 <= g2 <= GMAX and 0 <= g3 <= GMAX and 0 <= slow <= GMAX
+    pre: 1 <= n <= SSQL and 0 <= nb <= n and 0 <= tpos < n and -1 <= k < tpos
+    pre: 0 <= g1 <= GMAX and 0 <= g2 <= GMAX and 0 <= g3 <= GMAX and 0 <= slow <= SLOWSQ
     pre: (n > 1 and nb <= 1 or g1 == 0) and (n > 2 and nb <= 2 or g2 == 0) and (n > 3 and nb <= 3 or g3 == 0)
     post: _
     """
@@ -227,10 +228,10 @@ def ob_sqlite_subscribe(n: int, nb: int, tpos: int, k: int, g1: int, g2: int, g3
 @obligation(quick=120, thorough=400, partitions_quick=[f"sub_first == {b} and slow == {s}" for b in (True, False) for s in (0, 1)],
             partitions_thorough=[f"n == {n} and sub_first == {b} and slow == {s}" for n in (1, 2, 3, 4) for b in (True, False) for s in (0, 1, 2)],
             what="default polling AbstractWorkflowStore.subscribe_events (over the memory store's real query_events): exactly seq k+1..t once each, then stops",
-            bounds=dict(_SUB_BOUNDS, **{"events": "1..SSQ", "poll_interval": 1}))
+            bounds=dict(_SUB_BOUNDS, **{"poll_interval": 1}))
 def ob_default_poll_subscribe(n: int, nb: int, tpos: int, k: int, g1: int, g2: int, g3: int, slow: int, sub_first: bool) -> bool:
     """
-    pre: 1 <= n <= SSQ and 0 <= nb <= n and 0 <= tpos < n and -1 <= k < tpos
+    pre: 1 <= n <= SMAX and 0 <= nb <= n and 0 <= tpos < n and -1 <= k < tpos
     pre: 0 <= g1 <= GMAX and 0 <= g2 <= GMAX and 0 <= g3 <= GMAX and 0 <= slow <= GMAX
     pre: (n > 1 and nb <= 1 or g1 == 0) and (n > 2 and nb <= 2 or g2 == 0) and (n > 3 and nb <= 3 or g3 == 0)
     post: _
